@@ -45,7 +45,8 @@ def make(rep, ranks, n, t, ishuf=False, trev=False):
     return df
 
 
-LONG_NAMES = [("case_id", "reading_id", "dim_id"), ("inst", "tp", "var")]
+LONG_NAMES = [("case_id", "reading_id", "dim_id"), ("inst", "tp", "var"), (None, None, None)]
+LONG_UNNAMED = ("index", "time_index", "column")      # headers of a long table made without any name
 LONG_CALLS = [0]
 
 
@@ -57,6 +58,16 @@ def convert(obj, frm, to):
     from sktime.utils import data_processing as D
     if frm in ("ns", "na") and to == "np3":
         return D.from_nested_to_3d_numpy(obj)
+    # "np3n": a 3-d array whose owner kept the column names and passes them on as column_names
+    if frm in ("ns", "na") and to == "np3n":
+        return (D.from_nested_to_3d_numpy(obj), list(obj.columns))
+    if frm == "mi" and to == "np3n":
+        return (D.from_multi_index_to_3d_numpy(obj, instance_index=obj.index.names[0], time_index=obj.index.names[1]),
+                list(obj.columns))
+    if frm == "np3n" and to in ("ns", "na"):
+        return D.from_3d_numpy_to_nested(obj[0], column_names=obj[1], cells_as_numpy=(to == "na"))
+    if frm == "np3n" and to == "mi":
+        return D.from_3d_numpy_to_multi_index(obj[0], instance_index="inst", time_index="tp", column_names=obj[1])
     if frm == "np3" and to in ("ns", "na"):
         return D.from_3d_numpy_to_nested(obj, cells_as_numpy=(to == "na"))
     if frm in ("ns", "na") and to == "mi":
@@ -70,9 +81,9 @@ def convert(obj, frm, to):
     if frm in ("ns", "na") and to == "long":
         # the default column names and user-chosen ones alternate
         LONG_CALLS[0] += 1
-        names = LONG_NAMES[LONG_CALLS[0] % 2]
-        out = D.from_nested_to_long(obj, *names)
-        out.attrs["c15names"] = names
+        names = LONG_NAMES[LONG_CALLS[0] % 3]
+        out = D.from_nested_to_long(obj, *names) if names[0] else D.from_nested_to_long(obj)
+        out.attrs["c15names"] = names if names[0] else LONG_UNNAMED
         return out
     if frm == "long" and to == "ns":
         a, b, c = long_names(obj)
@@ -101,6 +112,10 @@ def read(obj, rep, cfg):
         shape = [obj.shape[0], obj.shape[1], len(np.asarray(obj.iloc[0, 0]))]
         if not cells_ok:
             rep = rep + "?"
+    elif rep == "np3n":
+        names = [rank_of(c) for c in obj[1]]
+        toks = [float(v) for v in np.asarray(obj[0]).ravel()]
+        shape = list(obj[0].shape)
     elif rep == "np3":
         names = []
         toks = [float(v) for v in np.asarray(obj).ravel()]
@@ -151,6 +166,17 @@ def observe(cfg):
         return {"crash": type(e).__name__ + ": " + str(e)[:140] + " @ " + traceback.format_exc().splitlines()[-3].strip()[:100]}
 
 
+def bigint_roundtrip():
+    """nested -> long -> nested keeps integer values exactly (also beyond 2**53, where float64 has gaps)."""
+    from sktime.utils import data_processing as D
+    big = 2 ** 53 + 1
+    X = pd.DataFrame({"a": [pd.Series(np.array([big, big + 2, big + 4], dtype="int64")), pd.Series(np.array([big + 6, 7, -big], dtype="int64"))]})
+    back = D.from_long_to_nested(D.from_nested_to_long(X, "case_id", "reading_id", "dim_id"))
+    want = [[big, big + 2, big + 4], [big + 6, 7, -big]]
+    got = [[int(v) for v in back.iloc[i, 0].values] for i in range(2)]
+    return got == want, got
+
+
 def flat(n, order, t):
     return [1000 * i + 100 * (c - 1) + k for i in range(n) for c in order for k in range(t)]
 
@@ -183,6 +209,13 @@ def run(ctx):
                 ctx.violation({"nestedness": m, "cells": kind},
                               "NestednessPredicates: cell-type matrix %s (%s cells): expected columns %s frame %s, got %s"
                               % (m, kind, v["cols"], v["frame"], got))
+    ctx.evaluations += 1
+    try:
+        ok, got = bigint_roundtrip()
+        if not ok:
+            ctx.violation({"bigint": True}, "ValuesReturnedExactly: nested -> long -> nested of int64 values around 2**53 returned %s" % got)
+    except Exception as e:
+        ctx.violation({"bigint": True}, "crash: nested -> long -> nested of an int64 panel: %s %s" % (type(e).__name__, str(e)[:100]))
     for i, v in enumerate(r.printed):
         cfg, exp = v["cfg"], v["exp"]
         obs = observe(cfg)
